@@ -193,7 +193,13 @@ func (c18) Exec(sc *sim.Scenario, env *sim.Env) *sim.Violation {
 			if switchChecks > 2000 && switchChecks%64 != 0 {
 				return nil
 			}
-			if diff := g0s.Diff(sim.SnapshotGlobals(false)); len(diff) > 0 {
+			var diff []string
+			if switchChecks%256 == 1 {
+				diff = g0d.Diff(sim.SnapshotGlobals(true)) // follows pointers, maps, slices
+			} else {
+				diff = g0s.Diff(sim.SnapshotGlobals(false))
+			}
+			if len(diff) > 0 {
 				return &sim.Violation{Oracle: "package_state_mutated", Step: -1,
 					Msg: fmt.Sprintf("package-level variable(s) %v changed while party %d (%s) was running, observed at a context switch to party %d at %s", diff, from, sc.Tasks[from].Role, to, site)}
 			}
@@ -227,6 +233,11 @@ func (c18) Exec(sc *sim.Scenario, env *sim.Env) *sim.Violation {
 		if sched.Viol != nil {
 			return fail(sched.Viol)
 		}
+		// package-level state first: it is the more fundamental finding, and unlike a digest
+		// mismatch caused by state leaking in from earlier worlds it reproduces in a fresh process
+		if diff := g0d.Diff(sim.SnapshotGlobals(true)); len(diff) > 0 {
+			return fail(&sim.Violation{Oracle: "package_state_mutated", Step: -1, Msg: fmt.Sprintf("package-level variable(s) %v differ after the interleaved phase", diff)})
+		}
 		for i := 0; i < nt; i++ {
 			e := envs[i]
 			if results[i] != solo[i].viol || e.Digest() != solo[i].digest {
@@ -240,9 +251,6 @@ func (c18) Exec(sc *sim.Scenario, env *sim.Env) *sim.Violation {
 				return fail(&sim.Violation{Oracle: "interference", Step: first,
 					Msg: fmt.Sprintf("party %d (%s) observed something else interleaved than alone (first differing op %d; own-oracle result %q vs %q alone) under a schedule of %d switches", i, sc.Tasks[i].Role, first, results[i], solo[i].viol, len(sched.Recorded))})
 			}
-		}
-		if diff := g0d.Diff(sim.SnapshotGlobals(true)); len(diff) > 0 {
-			return fail(&sim.Violation{Oracle: "package_state_mutated", Step: -1, Msg: fmt.Sprintf("package-level variable(s) %v differ after the interleaved phase", diff)})
 		}
 		st.Probe(fmt.Sprintf("schedule_ppm_%d", scj.SwitchPPM))
 		st.ProbeIf(len(sched.Recorded) >= 30000, "switch_cap_reached")
